@@ -161,3 +161,54 @@ func EscapeModules(n int) []Input {
 	}
 	return out
 }
+
+// LiteralModules returns n modules made of constants only: every floating-point kind in every spelling
+// (half 0xH / decimal / double-hex, float and double decimal, exponent and hex, x86_fp80 0xK,
+// fp128 0xL, ppc_fp128 0xM; no bfloat: the library has no such kind; infinities, NaNs, signed zeros, subnormals), integers (decimal, negative, wide,
+// u0x hex, i1 true/false), character arrays with escapes, and vectors / arrays / structs of them. Module k has its
+// own bit patterns. They are the texts a process parses FIRST, from several goroutines at once (C12): whatever
+// a literal decoder builds lazily on first use is then built under contention.
+func LiteralModules(n int) []Input {
+	var out []Input
+	for k := 0; k < n; k++ {
+		var sb strings.Builder
+		h := func(i int) uint16 { return uint16((i*2654435761 + k*40503 + 0x3C00) & 0xFFFF) }
+		// half first: the first literal a fresh process decodes
+		halves := []uint16{0xFBFF, 0x7BFF, 0x0001, 0x8001, 0x03FF, 0x0400, 0x3C00, 0xBC00, 0x7C00, 0xFC00, 0x8000, 0x0000, 0x7E00, 0xFE01, 0x3555}
+		for i := 0; i < 48; i++ {
+			halves = append(halves, h(i))
+		}
+		fmt.Fprintf(&sb, "@h.arr = constant [%d x half] [", len(halves))
+		for i, b := range halves {
+			if i > 0 {
+				sb.WriteString(", ")
+			}
+			fmt.Fprintf(&sb, "half 0xH%04X", b)
+		}
+		sb.WriteString("]\n")
+		for i := 0; i < 16; i++ {
+			fmt.Fprintf(&sb, "@h%d = global half 0xH%04X\n", i, h(100+i))
+		}
+		fmt.Fprintf(&sb, "@h.dec = global <4 x half> <half 1.5, half -2.0, half 6.550400e+04, half 0.0>\n")
+		fmt.Fprintf(&sb, "@h.hex = global half 0x3FF8000000000000\n")
+		fmt.Fprintf(&sb, "@f.dec = global [5 x float] [float 1.5, float -0.0, float 1.000000e+10, float 0x3FF8000000000000, float 0x7FF0000000000000]\n")
+		for i := 0; i < 8; i++ {
+			fmt.Fprintf(&sb, "@f%d = global float 0x%016X\n", i, uint64(0x3FF0000000000000)+uint64(k*16+i)<<29)
+		}
+		fmt.Fprintf(&sb, "@d.dec = global [6 x double] [double 1.5, double -2.5e-3, double 1.7976931348623157e+308, double 4.9406564584124654e-324, double 0xFFF8000000000001, double 0x8000000000000000]\n")
+		for i := 0; i < 8; i++ {
+			fmt.Fprintf(&sb, "@d%d = global double 0x%016X\n", i, uint64(0x3FF0000000000000)+uint64(k*977+i*131071))
+		}
+		for i := 0; i < 6; i++ {
+			fmt.Fprintf(&sb, "@k%d = global x86_fp80 0xK%04X%016X\n", i, 0x3FFF+i+k, uint64(0x8000000000000000)+uint64(i*7919+k))
+			fmt.Fprintf(&sb, "@l%d = global fp128 0xL%016X%016X\n", i, uint64(i*104729+k), uint64(0x3FFF000000000000)+uint64(i))
+			fmt.Fprintf(&sb, "@m%d = global ppc_fp128 0xM%016X%016X\n", i, uint64(0x3FF0000000000000)+uint64(i+k), uint64(0x3C90000000000000)+uint64(i))
+		}
+		fmt.Fprintf(&sb, "@i.dec = global { i1, i1, i8, i32, i64, i128 } { i1 true, i1 false, i8 -128, i32 %d, i64 -9223372036854775808, i128 170141183460469231731687303715884105727 }\n", 1000003*k+7)
+		fmt.Fprintf(&sb, "@i.hex = global [3 x i32] [i32 u0x%X, i32 u0xFFFFFFFF, i32 u0x0]\n", 0xABC0+k)
+		fmt.Fprintf(&sb, "@s = constant [%d x i8] c\"lit%02d\\00\\22\\5C\\FF\\0Aend\"\n", 13, k%100)
+		fmt.Fprintf(&sb, "@z = global { [2 x half], <2 x double>, i8* } { [2 x half] [half 0xH%04X, half 0xH%04X], <2 x double> <double 0.0, double -0.0>, i8* null }\n", h(300), h(301))
+		out = append(out, Input{Name: fmt.Sprintf("literals-%d", k), Text: sb.String()})
+	}
+	return out
+}
